@@ -1,4 +1,5 @@
 """C18 -- Attribute and key views of a simfile or chart never disagree."""
+import random
 from itertools import permutations, product
 
 from ..ref import dictmodel as M
@@ -244,18 +245,27 @@ def check_smchart(ctx, case):
     ctx.begin(case)
     attrs = M.SMCHART_ATTRS
 
-    def fresh():
-        c = SMChart.from_msd(list(state))
+    order = list(range(6))
+    random.Random(repr(state)).shuffle(order)
+
+    def fresh(_n=[0]):
+        _n[0] += 1
+        if _n[0] % 2:
+            c = SMChart.from_msd(list(state))
+        else:
+            c = SMChart()  # empty constructor, fields assigned in some other order
+            for j in order:
+                c[M.SIX[j]] = state[j]
         return c, dict(zip(M.SIX, state))
 
     def views_ok(c, model, label, extra):
         probs = []
-        if list(c.keys()) != M.SIX:
+        if sorted(c.keys()) != sorted(M.SIX):
             probs.append(("keys", list(c.keys())))
         for a, k in zip(attrs, M.SIX):
             if getattr(c, a) != model[k] or c[k] != model[k]:
                 probs.append(("field " + k, getattr(c, a), c[k], model[k]))
-        if list(c.items()) != list(model.items()) and [v for _, v in c.items()] != list(model.values()):
+        if dict(c.items()) != model:
             probs.append(("items", list(c.items())))
         p = list(parse_msd(string=str(c)))
         if not (len(p) == 1 and p[0].components[0] == "NOTES" and [x.strip() for x in p[0].components[1:7]] == list(model.values())):
